@@ -78,6 +78,10 @@ func genCacheSuite(r *hx.R, tier, scratch, prop string) (*hx.Suite, error) {
 		layouts = 2200
 	}
 	capsOK := faults && dacCapsWork(scratch)
+	// some directories are configured relative to the working directory: work from the scratch directory
+	if wd, err := os.Getwd(); err == nil && os.Chdir(scratch) == nil {
+		defer os.Chdir(wd)
+	}
 	elsewhere := filepath.Join(scratch, "elsewhere")
 	_ = os.MkdirAll(elsewhere, 0o755)
 	_ = os.WriteFile(filepath.Join(elsewhere, "a.json"), []byte(`{"cdiVersion":"0.3.0","kind":"vendor1.com/gpu","devices":[{"name":"dev1","containerEdits":{"env":["FP=elsewhere"]}}]}`), 0o644)
@@ -141,7 +145,7 @@ func genCacheSuite(r *hx.R, tier, scratch, prop string) (*hx.Suite, error) {
 		auto := k < 8
 		rootA := filepath.Join(scratch, fmt.Sprintf("sa%d", k))
 		rootB := filepath.Join(scratch, fmt.Sprintf("sb%d", k))
-		opts := fsOpts{faults: faults, auto: auto}
+		opts := fsOpts{faults: faults, auto: auto, quiet: auto}
 		fsA := genFS(r, rootA, opts)
 		fsB := genFS(r, rootB, opts)
 		if k%2 == 1 && len(fsA.Dirs) > 0 {
@@ -303,12 +307,69 @@ func genCacheSuite(r *hx.R, tier, scratch, prop string) (*hx.Suite, error) {
 			_ = cache.Configure(cdi.WithAutoRefresh(false))
 		}
 	}
+	// faults repaired from outside the file: a Spec file which is a dangling link is repaired by its target appearing (the
+	// link itself is not touched), broken again by the target going away, and repaired again
+	for k := 0; faults && k < 6; k++ {
+		root := filepath.Join(scratch, fmt.Sprintf("r%d", k))
+		auto := defectPendingLinkTargetUnwatched && k%3 == 2
+		opts := fsOpts{faults: true, auto: auto}
+		fs := genFS(r, root, opts)
+		d := &absDir{Path: filepath.Join(root, "links"), State: dirDir, Entries: genDirEntries(r, "links", opts)}
+		name := hx.Pick(r, []string{"a.json", "d.yaml", "l.json", "0.yaml", "zz.json"})
+		var kept []absEntry
+		for _, e := range d.Entries {
+			if e.Name != name {
+				kept = append(kept, e)
+			}
+		}
+		d.Entries = append(kept, absEntry{Name: name, Kind: entInvalid, Invalid: "dangling"})
+		fs.add(d)
+		if k%2 == 1 {
+			l := len(fs.Dirs) - 1
+			fs.Dirs[0], fs.Dirs[l] = fs.Dirs[l], fs.Dirs[0]
+			fs.Spell[0], fs.Spell[l] = fs.Spell[l], fs.Spell[0]
+		}
+		fs.materialise()
+		cache, _ := cdi.NewCache(cdi.WithSpecDirs(fs.dirList()...), cdi.WithAutoRefresh(auto))
+		hist := []string{}
+		emit := func() {
+			var o cacheObs
+			if auto {
+				o = settle(cache, fs.dirList(), fs.probeNames(), 3*time.Second, fs.unwatchableDirs())
+			} else {
+				o = observeCache(cache, fs.probeNames(), true)
+			}
+			o.Auto = auto
+			s.Add(hx.Case{Term: hx.C("Case01", fs.term(), o.term()),
+				Desc:  map[string]interface{}{"dirs": fs.desc(), "auto_refresh": auto, "history": append([]string{}, hist...), "observed": obsDesc(o)},
+				Class: "link-target-repair", Key: fs.term(), Nontrivial: true})
+		}
+		emit()
+		path := filepath.Join(d.Path, name)
+		for round := 0; round < 2; round++ {
+			e := &d.Entries[len(d.Entries)-1]
+			e.Kind, e.Invalid, e.ViaLink, e.LinkHow = entValid, "", true, 3
+			e.Spec = genValidSpec(r, fmt.Sprintf("links/%s#%d", name, round), false)
+			writeSpecFile(danglingTarget(path), e.Spec)
+			hist = append(hist, "the target of links/"+name+" appears")
+			emit()
+			if round == 0 {
+				e.Kind, e.Invalid, e.ViaLink, e.Spec = entInvalid, "dangling", false, nil
+				_ = os.Remove(danglingTarget(path))
+				hist = append(hist, "the target of links/"+name+" is removed")
+				emit()
+			}
+		}
+		if auto {
+			_ = cache.Configure(cdi.WithAutoRefresh(false))
+		}
+	}
 	for li := 0; li < layouts; li++ {
 		root := filepath.Join(scratch, fmt.Sprintf("l%d", li))
 		auto := li%3 == 2
 		capdrop := capsOK && !auto && li%4 == 1
 		variant := li % len(cacheCreators)
-		opts := fsOpts{faults: faults, dirFaults: faults, perm: capdrop, auto: auto}
+		opts := fsOpts{faults: faults, dirFaults: faults, perm: capdrop, auto: auto, relative: true}
 		fs := genFS(r, root, opts)
 		fs.materialise()
 		// with permission faults in the population everything the cache does happens without the DAC capabilities
